@@ -473,6 +473,8 @@ macro_rules! alloc_untrusted {
 
 alloc_untrusted!(allocde_t_l3_f1_s11, length = 3, free = 1, stored = (1, 1));
 alloc_untrusted!(allocde_q_l2_f0_s11, length = 2, free = 0, stored = (1, 1));
+// more stored identifiers than slots: a duplicate that leaves no slot missing
+alloc_untrusted!(allocde_q_l1_f0_s11, length = 1, free = 0, stored = (1, 1));
 alloc_untrusted!(allocde_q_l2_f2_s00, length = 2, free = 2, stored = (0, 0));
 alloc_untrusted!(allocde_t_l2_f2_s10, length = 2, free = 2, stored = (1, 0));
 alloc_untrusted!(allocde_t_l4_f2_s11, length = 4, free = 2, stored = (1, 1));
